@@ -42,10 +42,11 @@ Definition replay (n : nat) (G : graph) (items : list item) (finals : list gate)
   end.
 
 (* block_decomposition against the blocks the real code built, plus the verified reorder check *)
-Definition blocks_check (n : nat) (gs : list gate) (real : list item) : bool * bool :=
+Definition blocks_check (n : nat) (gs : list gate) (real : list item) : bool * bool * bool :=
   match block_decomposition n gs with
-  | Some bs => (all2 item_eqb bs real, reorder_ok (split_meas gs) (flat_map igates bs))
-  | None => (false, false)
+  | Some bs => (all2 item_eqb bs real, reorder_ok (split_meas gs) (flat_map igates bs),
+                gates_ok0b (split_meas gs))
+  | None => (false, false, false)
   end.
 Definition blocks_raise (n : nat) (gs : list gate) : bool :=
   match block_decomposition n gs with Some _ => false | None => true end.
